@@ -178,7 +178,7 @@ var (
 	vEdgeLatin   = []rune("éèêëàâäôöùûüçñßøåÉÖÀÐÿµªºþ")
 	vEdgeOther   = []rune("אבגשעبتثकखगกขด")
 	vInnerWild   = []string{" ", "  ", "/", ".", "_", "'", "(", ")", "%", "+", "&", ",", "\"", ":", "-", "#", "=", ", ", ": ", " - "}
-	vInnerTame   = []string{" ", "/", ".", "_", "-", "'", "&", "+", "%", "(", ")", ",", "<", ">"}
+	vInnerTame   = []string{" ", "/", ".", "_", "-", "'", "&", "+", "%", "(", ")", ",", "<", ">", ";"}
 	vEdgeClasses = [][]rune{vEdgeASCII, vEdgeASCII, vEdgeASCII, vEdgeDigits, vEdgeCyr, vEdgeGreek, vEdgeCJK, vEdgeLatin, vEdgeOther}
 )
 
@@ -192,7 +192,7 @@ func vGenEdgeRune(t *rapid.T, label string) rune {
 var vLongNameOneIn = 10 // set by generators that want more names longer than the report columns
 
 func vGenName(t *rapid.T, wild bool, label string) string {
-	if rapid.IntRange(0, 24).Draw(t, label+".cjk") == 0 {
+	if rapid.IntRange(0, 14).Draw(t, label+".cjk") == 0 {
 		// few runes, many bytes: 5-14 three-byte characters
 		k := rapid.IntRange(5, 14).Draw(t, label+".cjkn")
 		r := make([]rune, k)
